@@ -126,7 +126,7 @@ PROPS_EXTRA = {
     'C02': ['Props.C13Facts', 'Props.GenHeads', 'Props.GenJoinTail', 'Props.GenCapstoneJoin', 'Props.GenViews', 'Props.GenCapstoneViews', 'Props.GenAppend', 'Props.GenCapstoneAppend', 'Props.GenCapstoneSystem'],
     'C03': ['Props.C19Gen', 'Props.GenTraverse', 'Props.GenCapstoneValues', 'Props.GenViews', 'Props.GenCapstoneViews', 'Props.GenCapstoneSystem'],
     'C04': ['Props.C04Conc', 'Props.GenMisc', 'Props.GenAppend', 'Props.GenCapstoneAppend', 'Props.GenNewLog', 'Props.GenCapstoneSystem'],
-    'C05': ['Props.GenTraverse', 'Props.GenJoinTail', 'Props.GenCapstoneValues', 'Props.GenViews', 'Props.GenAppend', 'Props.GenCapstoneAppend', 'Props.GenCapstoneSystem'],
+    'C05': ['Props.GenTraverse', 'Props.GenJoinTail', 'Props.GenCapstoneJoin', 'Props.GenCapstoneValues', 'Props.GenViews', 'Props.GenAppend', 'Props.GenCapstoneAppend', 'Props.GenCapstoneSystem'],
     'C06': ['Props.EffectFacts', 'Props.CodecFacts', 'Props.GenHeads', 'Props.GenJoin', 'Props.GenJoinTail'],
     'C07': ['Props.CodecFacts'],
     'C08': ['Props.CodecFacts', 'Props.GenMisc'],
